@@ -1,5 +1,6 @@
 import Driver.Common
 import KatdalModel.Model.Select
+import KatdalModel.Model.ScanStructure
 open Np Index Drv Select
 
 namespace D02
@@ -127,5 +128,46 @@ def step (s : DS) (line : String) : DS × String :=
 
 end D02
 
+namespace D03
+open Categorical ScanStructure
+
+def intList (s : String) : List Int := if s = "-" then [] else (parseIntList s).getD []
+def natList (s : String) : List Nat := if s = "-" then [] else (parseNatList s).getD []
+def showL (l : List Nat) : String := if l.isEmpty then "-" else showNatList l
+
+/-- raw activity id -> simplified state id (SIMPLIFY_STATE.get(act, 'stop')):
+    0 slew, 1 track, 2 scan, 3 stop, 4 scan_ready -> slew, 5 scan_complete -> scan, anything else -> stop -/
+def simplify (v : Nat) : Nat :=
+  match v with
+  | 0 => 0 | 1 => 1 | 2 => 2 | 3 => 3 | 4 => 0 | 5 => 2 | _ => 3
+
+/-- `structure <N> <act ts> <act vals> <label ts> <label vals> <target ts> <target vals>`
+    times in half-dump units relative to the first dump's mid-time (dump d ends at 2d+1) -/
+def structureOp (n : Nat) (ats : List Int) (avs : List Nat) (lts : List Int) (lvs : List Nat)
+    (tts : List Int) (tvs : List Nat) : String :=
+  let ends : List Int := (List.range n).map fun (d : Nat) => 2 * Int.ofNat d + 1
+  let r : Except Err Result := do
+    let scan0 ← sensorToCategorical ats avs ends 2 (some simplify) (some SLEW) [SLEW, STOP] false
+    let label0 ← sensorToCategorical lts lvs ends 2 none (some EMPTY) [] true
+    let target0 ← sensorToCategorical tts tvs ends 2 none (some EMPTY) [] false
+    mkStructure scan0 label0 target0
+  match r with
+  | .error e => showErr e
+  | .ok res =>
+    let scanState := (uniqIndexPerDump res.scan).map fun i => res.scan.uniq.getD i 99
+    let labelVal := (uniqIndexPerDump res.label).map fun i => res.label.uniq.getD i 99
+    let tgtVal := (uniqIndexPerDump res.target).map fun i => res.target.uniq.getD i 99
+    s!"{showL (indexPerDump res.scan)}|{showL (indexPerDump res.label)}|{showL (uniqIndexPerDump res.target)}|{showL scanState}|{showL labelVal}|{showL tgtVal}"
+
+def step (s : D02.DS) (line : String) : D02.DS × String :=
+  match line.splitOn " " with
+  | ["structure", n, ats, avs, lts, lvs, tts, tvs] =>
+    match n.toNat? with
+    | some n => (s, structureOp n (intList ats) (natList avs) (intList lts) (natList lvs) (intList tts) (natList tvs))
+    | none => (s, "bad-op")
+  | _ => D02.step s line
+
+end D03
+
 def main : IO Unit :=
-  Drv.loopState ({ ctx := default, st := default, spec := default } : D02.DS) D02.step
+  Drv.loopState ({ ctx := default, st := default, spec := default } : D02.DS) D03.step
